@@ -28,10 +28,10 @@ func init() {
 
 func analysisCheck(cfg *core.Config, oracle, evalCounter, rule string, assumptions []string) int {
 	rep := core.NewReport(cfg)
-	progs := typeProgs(cfg.Seed, cfg.Pick(32, 400))
+	progs := typeProgs(cfg.Seed, cfg.Pick(32, 2500))
 	if oracle == "c12" {
 		// deeper nesting and more recursion for the type graph property
-		n := cfg.Pick(12, 150)
+		n := cfg.Pick(12, 800)
 		for i := 0; i < n; i++ {
 			r := core.Rand(cfg.Seed, "typeprog-c12-deep", i)
 			opts := synth.RandomTypeOpts(r)
